@@ -84,7 +84,7 @@ Section U.
             g_drained := g_drained s; g_wire := g_wire s ++ [(now s, i)]; g_log := g_log s;
             g_lines := g_lines s; g_packets := g_packets s; g_delivered := g_delivered s;
             g_withheld := g_withheld s; g_emitted := g_emitted s; g_fate := g_fate s;
-            g_armed := g_armed s |} = now s + spacing.
+            g_armed := g_armed s; g_lost := g_lost s |} = now s + spacing.
   Proof. unfold base. cbn [g_wire]. now rewrite last_time_app. Qed.
 
   Lemma inv12_step s a s' : inv12 s -> ustep s a = Some s' -> inv12 s'.
